@@ -81,8 +81,19 @@ func (c *mCfg) YAML() string {
 
 // owner describes which keys serve a listener.
 type mOwner struct {
-	ln   mLn
-	keys []*Key // in configuration order
+	ln     mLn
+	keys   []*Key // in configuration order
+	legacy bool   // a legacy per-port listener (no de-duplication rule in the statement)
+}
+
+// has reports whether id is configured on the listener with k's cipher and secret.
+func (o *mOwner) has(k *Key, id string) bool {
+	for _, x := range o.keys {
+		if x.ID == id && sameCrypto(x, k) {
+			return true
+		}
+	}
+	return false
 }
 
 // owners lists every listener of the configuration with its key list. Legacy
@@ -91,7 +102,7 @@ func (c *mCfg) owners() []mOwner {
 	var out []mOwner
 	for _, s := range c.Services {
 		for _, l := range s.Listeners {
-			out = append(out, mOwner{l, s.Keys})
+			out = append(out, mOwner{ln: l, keys: s.Keys})
 		}
 	}
 	seen := map[int]int{}
@@ -99,7 +110,7 @@ func (c *mCfg) owners() []mOwner {
 		i, ok := seen[l.Port]
 		if !ok {
 			addr := fmt.Sprintf(":%d", l.Port)
-			out = append(out, mOwner{mLn{"tcp", addr}, nil}, mOwner{mLn{"udp", addr}, nil})
+			out = append(out, mOwner{ln: mLn{"tcp", addr}, legacy: true}, mOwner{ln: mLn{"udp", addr}, legacy: true})
 			i = len(out) - 2
 			seen[l.Port] = i
 		}
